@@ -594,7 +594,7 @@ def parse_grist_names(builder):
           table_id = obj.name
           start = atok.get_text_range(node)[0]
           end = start + len(node.arg)
-          if node.arg == 'order_by':
+          if node.arg in ('order_by', 'sort_by'):
             # Rename values in 'order_by' arguments to lookup methods.
             parsed_names.extend(list_order_group_by_tuples(table_id, node.value))
           elif code_text[start:end] == node.arg:
